@@ -13,7 +13,7 @@
   (object identity under delete).
 -/
 import Hv.Conc.LinearizeLemmas
-import Hv.Conc.Stale
+import Hv.Conc.StaleLemmas
 import Hv.Props.C15
 import Hv.Basic.Verdict
 
@@ -245,6 +245,30 @@ theorem refutes_stale (c : Cfg) (hc : c.stale = { recheck := false }) : ¬ Holds
     · exact hw.2.2.2
     · exact hw.2.2.1
 
+/-- With the re-check under the guard (an operation whose object is no longer the key's object starts
+    over), every reachable state's completion log replays on the register Spec to exactly what a client
+    reads — for every schedule, any mix of increments and deletes, persisted or not. -/
+theorem linearizable_repaired (persisted : Bool) (kinds : Nat → Stale.Kind) (v0 : Int) (sched : List Nat) (s : Stale.St)
+    (h : Stale.run Stale.repaired persisted kinds (Stale.init v0) sched = some s) : Stale.Linearizable kinds v0 s := by
+  have hi : Stale.Inv kinds v0 s := LTS.inv_run (Stale.step Stale.repaired persisted kinds) (Stale.Inv kinds v0)
+    (fun s a s' hi hs => Stale.inv_step kinds v0 persisted s a s' hi hs) (Stale.init v0) sched s (Stale.inv_init kinds v0) h
+  exact ⟨s.log, List.Perm.refl _, hi.replay⟩
+
+/-- Non-vacuity: the schedule of the stale-object witness under the repaired protocol — the increment
+    notices that its object is gone, starts over on a fresh object and returns 1. -/
+example : (Stale.run Stale.repaired false staleKinds (Stale.init 5) [1, 2, 2, 2, 2, 1, 1, 1, 1, 1, 1]).map
+    (fun s => (s.log, Stale.final s)) = some ([⟨2, .deleted⟩, ⟨1, .val 1⟩], some 1) := by decide
+
+/-- C09 for the repaired facts: both write modes, any number of calls and guard clients, objects
+    replaced under deletes. -/
+theorem holds_repaired (rel : Bool) :
+    Holds { guard := noReset, releasesWhenImmediate := rel, shape := .guarded, stale := Stale.repaired } := by
+  constructor
+  · intro ris _ op v0 sched s h
+    exact (exclusive_with_double_release ris op v0 sched s h).1
+  · intro persisted kinds v0 sched s h _
+    exact linearizable_repaired persisted kinds v0 sched s h
+
 /-! ### decision over the extracted facts -/
 
 inductive ShapeFact where
@@ -284,7 +308,8 @@ def classify (f : Facts) : Verdict :=
   if f.createSingleFlight ≠ .yes then .undetermined "create.singleFlight: no theorem without the in-flight tracker" else
   if f.rechecksObjectUnderGuard = .unknown then .undetermined "increment.rechecksObjectUnderGuard" else
   match findings (cfgOf f) with
-  | [] => .undetermined "no theorem yet covers the object re-check variant / ID reuse without the in-save release"
+  | [] => if f.resetsIdOnEmpty = .no then .holds
+          else .undetermined "no theorem covers guard ID reuse without the in-save release"
   | fs => .violated fs
 
 /-- The `_partial` statement: with guard IDs never reused and well-formed bodies, every history
@@ -329,7 +354,24 @@ theorem classify_sound (f : Facts) : (classify f).Sound (Holds (cfgOf f)) (Holds
   split; · trivial
   split; · trivial
   split
-  · trivial
+  · rename_i hf
+    split
+    · rename_i hres
+      rename_i hu1 hu2 hu3 hu4 hu5
+      -- no findings: guarded bodies, re-check present; IDs never reused
+      have hsh : (cfgOf f).shape = .guarded := by
+        cases hs : (cfgOf f).shape <;> simp [findings, hs] at hf ⊢
+      have hre : (cfgOf f).stale.recheck = true := by
+        cases hr : (cfgOf f).stale.recheck <;> simp [findings, hr] at hf ⊢
+      have hc : cfgOf f = { guard := noReset, releasesWhenImmediate := (cfgOf f).releasesWhenImmediate, shape := .guarded,
+                            stale := Stale.repaired } := by
+        have hg : (cfgOf f).guard = noReset := by simp [cfgOf, noReset, hres, Tri.isYes]
+        have hst : (cfgOf f).stale = Stale.repaired := by
+          cases hx : (cfgOf f).stale; simp [hx] at hre; simp [Stale.repaired, hre]
+        cases hcc : cfgOf f; simp [hcc] at hsh hg hst; simp [hsh, hg, hst]
+      show Holds (cfgOf f)
+      rw [hc]; exact holds_repaired _
+    · trivial
   · rename_i fs hne
     exact ⟨refutes_of_findings _ (fun he => hne he), holds_partial _⟩
 
